@@ -1018,6 +1018,26 @@ def check(run):
             failures.append((i, verdict(cases[i], best)))
         elif best["us"] > TIME_T_US:
             failures.append((i, "decoding took %.2f s for an input of %d bytes (bound %.1f s)" % (best["us"] / 1e6, cases[i]["_n"], TIME_T_US / 1e6)))
+    # the same inputs on the development profile (debug assertions, integer-overflow checks): a decoder that only panics
+    # there (arithmetic overflow, debug_assert!) still "panics on untrusted input"; timing and allocation bounds are not
+    # judged on this build (it is slow by design), only the outcome class, which must equal the release build's
+    dbg = common.harness_build("robust", profile="debug")
+    small = [i for i, c in enumerate(cases) if c["_n"] <= 20000]
+    outs_dbg = common.harness_run(dbg, [public(cases[i]) for i in small], timeout=900)
+    n_dbg_fail = 0
+    for i, od in zip(small, outs_dbg):
+        o = outs[i]
+        bad = None
+        if od.get("crash"):
+            bad = "the worker died on this input on the development build (%s)" % od.get("crash")
+        elif od.get("class") == "panic" and o.get("class") != "panic":
+            bad = "panic on the development build only (overflow check / debug assertion): %s" % (od.get("detail") or {}).get("msg", "")[:160]
+        elif od.get("class") != o.get("class") and "class" in od and "class" in o:
+            bad = "outcome class differs between builds: release %s, development %s" % (o.get("class"), od.get("class"))
+        if bad:
+            n_dbg_fail += 1
+            failures.append((i, bad))
+    run.cov["debug_profile_cases"] = len(small); run.cov["debug_profile_failures"] = n_dbg_fail
     # valid encodings must decode (otherwise the mutation families mutate nothing meaningful)
     not_valid = [c for c, o in zip(cases, outs) if c["_shape"] == "valid" and o.get("class") != "value"]
     failures.sort(key=lambda iv: (cases[iv[0]]["_n"], iv[0]))
